@@ -17,7 +17,7 @@ RULE = (
     "double; generated 1-3 inputs / 1-2 outputs with shared, output-only, numeric and ellipsis bracket axes) are wrapped around instrumented pure numpy functions "
     "(with and without keyword-only options) and called with generated descriptions valid for the adapter's signature class "
     "(flatten, ellipsis, diagonal, squeeze, broadcast, permutation as in C01), in short histories of 1-3 calls whose option "
-    "values change, repeat or are hash-equal twins (2 / 2.0 / True); option values: ints, floats incl. nan/inf/-0.0, bools, None, "
+    "values change, repeat or are hash-equal twins (2 / 2.0 / True); option *names* are drawn too (scale, tag, and short names such as s, a, x, i, ax, k, n, name, shape that resemble axis names or einx's own parameter names); option values: ints, floats incl. nan/inf/-0.0, bools, None, "
     "strings with quotes, backslashes, newlines and non-ASCII, tuples, lists, numpy scalars. Oracle: result equals the loop "
     "interpreter with the same Python function as elementary operation; recorded arguments: reduce receives the aligned tensor "
     "and axis = tuple of the bracketed positions, element-wise receives equal-rank broadcast-compatible tensors, vmap receives the bracketed sub-tensors; every option "
@@ -121,8 +121,16 @@ def c15_case(draw, tier="quick"):
             elif isinstance(v, float) and math.isfinite(v) and v == int(v):
                 o[k] = int(v)
         history.append(o)
+    optnames = {"scale": "scale", "tag": "tag"}
+    if has_opts and draw(st.booleans()):
+        used = {n.split(".")[0] for n in X.all_axis_names([X.expand(e) for e in base["ins"] + base["outs"]])} | set(base["sizes"])
+        taken = used | {p_.lstrip("*") for p_ in POSITIONAL[fn]} | {"axis"}
+        pool = [n for n in OPT_NAME_POOL if n not in taken]
+        if len(pool) >= 2:
+            picked = draw(st.permutations(pool))[:2]
+            optnames = {"scale": picked[0], "tag": picked[1]}
     special = draw(st.sampled_from([None, None, None, "axis_named_like_option", "bad_type", "bad_type_shaped", "bad_rank", "bad_shape", "bad_arity"]))
-    return {"adapter": adapter, "fn": fn, "base": base, "history": history, "special": special}
+    return {"adapter": adapter, "fn": fn, "base": base, "history": history, "special": special, "optnames": optnames}
 
 
 class Recorder:
@@ -134,6 +142,29 @@ _WARM = []
 
 
 make_vm_fn = LV.make_elementary
+
+OPT_NAME_POOL = ["scale", "tag", "s", "a", "x", "i", "ax", "xi", "k", "p", "xs", "axi", "name", "shape", "n", "si"]
+POSITIONAL = {"sumsq": ["x", "axis"], "poly": ["x", "y"], "unary": ["x"], "vm": ["*xs"]}
+
+
+def rename_options(f, fname, mapping):
+    """The same function with its keyword-only options renamed (canonical name -> public name); einx derives the set of
+    forwarded keywords from the signature, so the names themselves are part of the input domain."""
+    if all(k == v for k, v in mapping.items()):
+        return f
+    import inspect
+
+    pos = POSITIONAL[fname]
+    canon = [n for n, p_ in inspect.signature(f).parameters.items() if p_.kind is inspect.Parameter.KEYWORD_ONLY]
+    defaults = {n: inspect.signature(f).parameters[n].default for n in canon}
+    kw = ", ".join(f"{mapping[n]}=_defaults[{n!r}]" for n in canon)
+    fwd = ", ".join(f"{n}={mapping[n]}" for n in canon)
+    star = "" if pos[0].startswith("*") else "*, "
+    src = f"def f({', '.join(pos)}, {star}{kw}):\n    return _inner({', '.join(pos)}, {fwd})\n"
+    ns = {"_inner": f, "_defaults": defaults}
+    exec(src, ns)  # noqa: S102
+    return ns["f"]
+
 
 
 def make_fn(name, rec, bad=None):
@@ -213,6 +244,7 @@ def evaluate(rc, stats):
     special = rc["special"]
     rec = Recorder()
     bad = special if special and special.startswith("bad_") else None
+    optnames = rc.get("optnames") or {"scale": "scale", "tag": "tag"}
     if adapter == "vmap":
         out_shapes = [tuple(X.br_shape(o, env)) for o in base["outs"]]
         user = make_vm_fn(fname, rec, out_shapes, bad=bad)
@@ -220,6 +252,8 @@ def evaluate(rc, stats):
     else:
         user = make_fn(fname, rec, bad=bad)
         adapt = einx.numpy.adapt_numpylike_reduce if adapter == "reduce" else einx.numpy.adapt_numpylike_elementwise
+    if fname in POSITIONAL:
+        user = rename_options(user, fname, optnames)
     if not _WARM:
         # the first function adapted in a process has no keyword-only options; all instrumented functions share one
         # qualified name, so anything einx remembers per function *name* would leak from this one to the later ones
@@ -241,7 +275,7 @@ def evaluate(rc, stats):
         names = [n for n in X.all_axis_names([X.expand(e) for e in base["ins"] + base["outs"]]) if "." not in n]
         if not names:
             return []
-        twin = R.rename_case(base, {names[0]: "scale"})
+        twin = R.rename_case(base, {names[0]: optnames["scale"]})
         stats.count("special:axis_named_like_option")
         try:
             with warnings.catch_warnings():
@@ -250,8 +284,8 @@ def evaluate(rc, stats):
         except einx.errors.SemanticError:
             return []
         except Exception as e:  # noqa: BLE001
-            return [Violation(common.exc_bucket(PROP, e, "option_axis_clash"), f"{where0}) with an axis named 'scale' raised {type(e).__name__} instead of SemanticError: {str(e)[:200]}")]
-        return [Violation("C15|option_axis_clash|accepted", f"{aname}({fname})({twin['desc']!r}) accepted an axis named like the keyword-only option 'scale'")]
+            return [Violation(common.exc_bucket(PROP, e, "option_axis_clash"), f"{where0}) with an axis named {optnames['scale']!r} raised {type(e).__name__} instead of SemanticError: {str(e)[:200]}")]
+        return [Violation("C15|option_axis_clash|accepted", f"{aname}({fname})({twin['desc']!r}) accepted an axis named like the keyword-only option {optnames['scale']!r}")]
 
     if bad:
         stats.count("special:" + bad)
@@ -290,11 +324,11 @@ def evaluate(rc, stats):
             stats.count("harness:reference_unsupported")
             return []
         rec.calls.clear()
-        where = where0 + f", options={opts!r}) [call {ci + 1} of {len(rc['history'])}]"
+        where = where0 + f", options={ {optnames[k]: v for k, v in opts.items()}!r}) [call {ci + 1} of {len(rc['history'])}]"
         try:
             with warnings.catch_warnings():
                 warnings.simplefilter("ignore")
-                got = ein(desc, *[a.copy() for a in arrays], **base["sizes"], **copy.deepcopy(opts))
+                got = ein(desc, *[a.copy() for a in arrays], **base["sizes"], **{optnames[k]: v for k, v in copy.deepcopy(opts).items()})
         except Exception as e:  # noqa: BLE001
             cause = e.__cause__ if isinstance(e, einx.errors.CallOperationError) and e.__cause__ else e
             okind = "+".join(sorted({type(v).__name__ for v in opts.values()}))
